@@ -40,7 +40,9 @@ func (h *RefreshFunc) Final(ctx *sqlite.AggregateContext) {
 		ctx.ResultError(fmt.Errorf("table not found: %s", fCtx.tableName))
 		return
 	}
-	if vt.Tree != nil && vt.Tree.Root != nil && vt.Tree.Root.IsDirty() {
+	if !vt.S3Options.ReadOnly && vt.Tree != nil && vt.Tree.Root != nil && vt.Tree.Root.IsDirty() {
+		// (a read-only table that merged several versions in memory is
+		// "dirty" too, but holds nothing that could be lost)
 		// replacing a tree with uncommitted writes would drop them silently, and the
 		// abandoned dirty tree panics the process when it is garbage-collected
 		ctx.ResultError(fmt.Errorf("s3db_refresh: %s has uncommitted changes; COMMIT or ROLLBACK first", fCtx.tableName))
